@@ -145,6 +145,20 @@ Theorem c04_ctor_accepts_wf : forall a c e u s mi, ctor a = Ok c e u s -> env_ok
 Proof. exact ctor_accepts_wf. Qed.
 Print Assumptions c04_ctor_accepts_wf.
 
+(* simultaneously live iterations (a mid-training `next(iter(loader))` peek): an
+   iteration owns its counters, so all another live iteration can change for it
+   is the iteration number the shared side sampler objects are at - and the
+   announcements, iteration starts, main indices with their flags (hence the
+   stopping point) are the same whatever those numbers are.  (The harness runs
+   the REAL object with several live iterators advanced alternately and compares
+   each with the stream of a fresh configuration from its own start.) *)
+Theorem c04_iterations_independent : forall c mi, WF c mi -> forall n e pn pn',
+  length pn = length (sides c) -> length pn' = length (sides c) ->
+  option_map (filter not_side) (run c mi n (start_state c e pn))
+  = option_map (filter not_side) (run c mi n (start_state c e pn')).
+Proof. exact iterations_independent. Qed.
+Print Assumptions c04_iterations_independent.
+
 (* non-vacuity: an accepted constructor call exists, is well-formed and before its budget *)
 Example c04_premises_satisfiable :
   ctor ex_args = Ok ex_cfg 0 0 0 /\ WF ex_cfg ex_iter /\ before_budget ex_cfg 0 /\ args_valid ex_args.
@@ -158,4 +172,8 @@ Example c04_example_run :
 Proof. vm_compute. reflexivity. Qed.
 Example c04_example_order :
   option_map ctl (run ex_cfg ex_iter 4 (start_state ex_cfg 0 [0; 0]%nat)) = Some (ctl_seq 0 2).
+Proof. vm_compute. reflexivity. Qed.
+Example c04_example_live :
+  option_map (fun l => length (filter not_side l)) (run ex_cfg ex_iter 4 (start_state ex_cfg 0 [3; 5]%nat))
+  = option_map (fun l => length (filter not_side l)) (run ex_cfg ex_iter 4 (start_state ex_cfg 0 [0; 0]%nat)).
 Proof. vm_compute. reflexivity. Qed.
